@@ -3737,9 +3737,14 @@ impl<Front: SocketHandler> ConnectionH2<Front> {
                     MuxResult::CloseSession
                 }
             }
-            (H2State::Error, _)
-            | (H2State::ClientSettings, Position::Server)
-            | (H2State::ServerSettings, Position::Client(..)) => {
+            (H2State::ServerSettings, Position::Client(..)) => {
+                // A stream attached while we wait for the backend's SETTINGS
+                // re-arms WRITABLE (`start_stream`). Nothing can be sent until
+                // they arrive; the SETTINGS ACK path re-arms WRITABLE then.
+                self.readiness.interest.remove(Ready::WRITABLE);
+                MuxResult::Continue
+            }
+            (H2State::Error, _) | (H2State::ClientSettings, Position::Server) => {
                 error!(
                     "{} Unexpected combination: (Writable, {:?}, {:?})",
                     log_context!(self),
